@@ -43,7 +43,7 @@ def orderGo (g : Deps) : Res := loopGo g g.length (List.range g.length) []
 
 /-! ### package layer -/
 
-/-- what is ordered: one node per declared variable (as in go/types and the compiler).
+/-- what is ordered by the toolchain: one node per declared variable (as in go/types and the compiler).
     `label`: what is logged when the node is reached — the initialisation expression's label; for
     `var a, b = f()` both variables carry the expression's dependencies and the expression is
     evaluated when the first of them is reached (the second is silent); a variable without
@@ -72,19 +72,31 @@ def unitsOf (vars : List VarSpec) : List GoUnit := unitsFrom 0 vars
 
 def GoUnit.labels (u : GoUnit) : List String := u.label.toList
 
-def isFunc (funcs : List Func) (name : String) : Bool := funcs.any (fun f => f.name == name)
+/-- "A reference to a variable or function is an identifier denoting it. A reference to a method m
+    is a method value or method expression of the form t.m … A variable, function, or method x
+    depends on a variable y if x's initialization expression or body (for functions and methods)
+    contains a reference to y or to a function or method that depends on y."
+    `Reach fol body ids x`: the expression whose identifiers are `ids` refers to `x`, or to a
+    function or method (`fol g`: the identifier `g` denotes one) whose body (`body g.name`) does so,
+    transitively. -/
+inductive Reach (fol : Ident → Bool) (body : String → List Ident) : List Ident → Ident → Prop
+  | direct {ids : List Ident} {x : Ident} : x ∈ ids → Reach fol body ids x
+  | through {ids : List Ident} {g x : Ident} :
+      g ∈ ids → fol g = true → Reach fol body (body g.name) x → Reach fol body ids x
 
-def bodyOf (funcs : List Func) (name : String) : List Ident :=
-  match funcs.find? (fun f => f.name == name) with
-  | some f => f.ids
-  | none => []
+/-- the identifier denotes a declared function or method of the package -/
+def denotesFunc (funcs : List Func) (g : Ident) : Bool := g.pkgLevel && isFunc funcs g.name
+
+/-- the specification's reference relation on a package with the functions `funcs`
+    (declarative; `refIds` computes it: `mem_refIds_iff`) -/
+abbrev Refers (funcs : List Func) : List Ident → Ident → Prop := Reach (denotesFunc funcs) (bodyOf funcs)
 
 /-- functions and methods an identifier list refers to -/
 def funcRefs (funcs : List Func) (ids : List Ident) : List String :=
   ids.filterMap (fun id => if id.pkgLevel && isFunc funcs id.name then some id.name else none)
 
 /-- all functions reachable from `seen` through bodies (least fixed point; every round but the
-    last adds a function, so `funcs.length + 1` rounds are enough) -/
+    last adds a function, so `funcs.length + 1` rounds are enough: `closure_closed`) -/
 def closure (funcs : List Func) : Nat → List String → List String
   | 0, seen => seen
   | k + 1, seen =>
@@ -93,17 +105,21 @@ def closure (funcs : List Func) : Nat → List String → List String
     | [] => seen
     | nw => closure funcs k (seen ++ nw)
 
-/-- index of the node of a variable -/
+/-- "a reference to a variable or function is an identifier denoting it; x depends on y if x's
+    initialization expression or body refers to y or to a function or method that depends on y":
+    every identifier the expression refers to, itself or through the functions and methods it reaches -/
+def refIds (funcs : List Func) (ids : List Ident) : List Ident :=
+  ids ++ (closure funcs (funcs.length + 1) (funcRefs funcs ids).eraseDups).flatMap (bodyOf funcs)
+
+/-- index of the node of a variable (the blank identifier denotes nothing) -/
 def lookupUnit (units : List GoUnit) (name : String) : Option Nat :=
+  if name = "_" then none else
   let i := units.findIdx (fun u => u.name == name)
   if i < units.length then some i else none
 
-/-- the variables an initialisation expression depends on: those it names and those named in
-    the body of any function or method it reaches -/
+/-- the variables an initialisation expression depends on -/
 def unitDeps (units : List GoUnit) (funcs : List Func) (ids : List Ident) : List Nat :=
-  let fs := closure funcs (funcs.length + 1) (funcRefs funcs ids).eraseDups
-  let all := ids ++ fs.flatMap (bodyOf funcs)
-  (all.filterMap (fun id => if id.pkgLevel then lookupUnit units id.name else none)).eraseDups
+  ((refIds funcs ids).filterMap (fun id => if id.pkgLevel then lookupUnit units id.name else none)).eraseDups
 
 def goDepsOf (units : List GoUnit) (funcs : List Func) : Deps :=
   units.map (fun u => unitDeps units funcs u.ids)
@@ -113,76 +129,52 @@ def goDeps (p : Pkg) : Deps := goDepsOf (unitsOf p.vars) p.funcs
 def unitLabels (units : List GoUnit) (order : List Nat) : List String :=
   order.flatMap (fun i => match units[i]? with | some u => u.labels | none => [])
 
-/-- the whole program: variables, `init` functions in source order, `main`; a dependency cycle is
-    a compile-time error -/
+/-- the whole program as the toolchain runs it: variables (one node each), `init` functions in
+    source order, `main`; a dependency cycle is a compile-time error -/
 def runGo (p : Pkg) : Trace :=
   match orderGo (goDeps p) with
   | .ok order => ⟨unitLabels (unitsOf p.vars) order ++ p.inits ++ p.main.toList, false⟩
   | _ => ⟨[], true⟩
 
-/-! ### where the two can differ: decidable classes of the *input* -/
+/-! ### the same rules with one node per initialisation step
 
-def subset (a b : List Nat) : Bool := a.all (fun x => b.contains x)
+  "Multiple variables on the left-hand side of a variable declaration initialized by a single
+   (multi-valued) expression on the right-hand side are initialized together: if any of the
+   variables on the left-hand side is initialized, all those variables are initialized in the same
+   step." Read literally, `var a, b = f()` is *one* node of the ordering; `var a, b = x, y` is two.
+  `runGoS` applies the rules of the section above with these nodes: every specification is a node,
+  after `a, b = x, y` has been taken apart (a specification without value, `var x, y T`, stays one
+  silent node). This is what the interpreter implements. The toolchain (`runGo`) keeps one node per
+  variable and only emits the multi-valued expression once; the two readings give different logs on
+  some packages (`one_node_witness`, finding F15-8). -/
+
+/-- the nodes: `a, b = x, y` becomes `a = x`, `b = y` -/
+def stepsGo (vars : List VarSpec) : List VarSpec := vars.flatMap splitSpec
+
+/-- the steps an initialisation expression depends on: those declaring a variable it refers to -/
+def stepDeps (steps : List VarSpec) (funcs : List Func) (ids : List Ident) : List Nat :=
+  ((refIds funcs ids).filterMap (fun id => if id.pkgLevel then declIdx steps id.name else none)).eraseDups
+
+def goStepDeps (p : Pkg) : Deps :=
+  (stepsGo p.vars).map (fun s => stepDeps (stepsGo p.vars) p.funcs s.ids)
+
+def runGoS (p : Pkg) : Trace :=
+  match orderGo (goStepDeps p) with
+  | .ok order => ⟨labelsOf (stepsGo p.vars) order ++ p.inits ++ p.main.toList, false⟩
+  | _ => ⟨[], true⟩
+
+/-! ### where the interpreter and the toolchain can differ: a decidable class of the *input* -/
+
+/-- **Domain of the comparison with the toolchain**: the two readings of the specification give the
+    same log on this package. (A predicate of the package alone; nothing of the interpreter enters.
+    Every package whose specifications declare one variable each is in it: `dom_of_single`.) -/
+def dom (p : Pkg) : Bool := decide (runGoS p = runGo p)
 
 /-- the specification declares exactly one variable, with at most one initialisation expression -/
 def single (v : VarSpec) : Bool := v.names.length == 1 && v.inits.length ≤ 1
 
-/-- every specification declares exactly one variable (then nodes = specifications) -/
-def allSingle (p : Pkg) : Bool := p.vars.all single
-
-/-- per index: the same *sets* of dependencies -/
-def sameDeps (gy gg : Deps) : Bool :=
-  gy.length == gg.length &&
-  (List.range gy.length).all (fun i => subset (depsOf gy i) (depsOf gg i) && subset (depsOf gg i) (depsOf gy i))
-
-/-- **Domain of the equality theorem**: one variable per specification; the dependencies
-    `getVarDependencies` collects are, as sets, those of the specification (nothing reached only
-    through a function or method body, no self reference, no false dependency). (Before the repair
-    of F15 the domain also required that no specification be overtaken inside a pass; the loop now
-    restarts after every append and the condition is gone.) -/
-def dom (p : Pkg) : Bool :=
-  !gtaRejects p && allSingle p && sameDeps (collectDepsY p) (goDeps p)
-
-/-- the specification's dependency graph projected on specifications (for labelling only) -/
-def goSpecDeps (p : Pkg) : Deps :=
-  let units := unitsOf p.vars
-  let gg := goDepsOf units p.funcs
-  (List.range p.vars.length).map (fun k =>
-    ((List.range units.length).filter (fun u => match units[u]? with | some x => x.spec == k | none => false)).flatMap
-      (fun u => (depsOf gg u).filterMap (fun d => (units[d]?).map (·.spec))))
-
-def missingClass (p : Pkg) (i d : Nat) : String :=
-  if d = i then "self-ref"
-  else match p.vars[d]? with
-    | some v => if v.multi then "dep-on-multi-value-decl" else "dep-through-function"
-    | none => "dep-through-function"
-
-def extraClass (p : Pkg) (d : Nat) : String :=
-  match p.vars[d]? with
-  | some v => if v.names.contains "_" then "dup-blank" else "false-dep"
-  | none => "false-dep"
-
-/-- why an input is outside the domain: the first applicable reason -/
-def reason (p : Pkg) : String :=
-  if gtaRejects p then "multi-value-before-callee" else
-  if p.funcs.any (fun f => f.ids.any (fun id => id.pkgLevel && p.vars.any (fun v => v.multi && v.names.contains id.name)))
-    then "multi-value-var-in-function" else
-  if p.vars.any VarSpec.paired then "paired-decl" else
-  let gy := collectDepsY p
-  let gs := goSpecDeps p
-  let idx := List.range p.vars.length
-  let missing := idx.flatMap (fun i => ((depsOf gs i).filter (fun d => !(depsOf gy i).contains d)).map (missingClass p i))
-  let extra := idx.flatMap (fun i => ((depsOf gy i).filter (fun d => !(depsOf gs i).contains d)).map (extraClass p))
-  if missing.contains "self-ref" then "self-ref"
-  else if missing.contains "dep-on-multi-value-decl" then "dep-on-multi-value-decl"
-  else if !missing.isEmpty then "dep-through-function"
-  else if extra.contains "dup-blank" then "dup-blank"
-  else if !extra.isEmpty then "false-dep"
-  else if !allSingle p then "multi-name-decl"
-  else "unclassified"
-
 /-- class label of an input -/
-def classify (p : Pkg) : String := if dom p then "in-domain" else reason p
+def classify (p : Pkg) : String := if dom p then "in-domain" else "several-names-one-node"
 
 /-! ### which declarations are init functions
 
@@ -211,8 +203,11 @@ def declaredFuncsGo (ds : List Decl) : List String :=
 def toPkgGo (s : SrcPkg) : Pkg :=
   ⟨declVars s.decls, (declFuncs s.decls).map FuncDecl.toFunc, (initFuncsGo s.files).map (·.label), s.main⟩
 
-/-- variables, init functions in source order, `main` and what it calls -/
+/-- variables, init functions in source order, `main` and what it calls (as the toolchain runs it) -/
 def runSrcGo (s : SrcPkg) : Trace := (runGo (toPkgGo s)).andThen s.after
+
+/-- the same with one node per initialisation step -/
+def runSrcGoS (s : SrcPkg) : Trace := (runGoS (toPkgGo s)).andThen s.after
 
 /-- class label of a package given as source: it depends on the declarations only, not on any fact
     read from the interpreter -/
